@@ -99,12 +99,12 @@ def compact(p):
 
 
 def _cfg_with_k(cfg, k, wd):
-    """Copy of spec/<cfg> with the size bound replaced (written next to the
-    original so that TLC finds the modules)."""
+    """Copy of spec/<cfg> with the size bound replaced, written to the scratch
+    directory (TLC takes an absolute -config path)."""
     if k is None:
         return cfg
     src = os.path.join(vlib.SPEC, cfg)
-    name = f"_tmp_{os.getpid()}_{k}_{cfg}"
+    name = os.path.join(wd, f"K{k}_{cfg}")
     with open(src) as f:
         text = f.read()
     lines = []
@@ -112,7 +112,7 @@ def _cfg_with_k(cfg, k, wd):
         if line.strip().startswith("K ="):
             line = f"  K = {k}"
         lines.append(line)
-    with open(os.path.join(vlib.SPEC, name), "w") as f:
+    with open(name, "w") as f:
         f.write("\n".join(lines) + "\n")
     return name
 
@@ -169,18 +169,11 @@ def gen_and_replay(rep, pid, wd, name, k, st, variants, workers=4, jobs=4, real_
     cfg, tick = GEN[name]
     tmp = _cfg_with_k(cfg, k, wd)
     gen = os.path.join(wd, f"{name}-{k}.gen.ndjson")
-    try:
-        if name in SIMULATE:
-            r = vlib.tlc("Gen_Semantics", tmp, workers=workers, timeout=2400, json_out=gen,
-                         simulate=SIMULATE[name], depth=60, tool_seed=vlib.seed())
-        else:
-            r = vlib.tlc("Gen_Semantics", tmp, workers=workers, timeout=2400, json_out=gen)
-    finally:
-        if tmp != cfg:
-            try:
-                os.remove(os.path.join(vlib.SPEC, tmp))
-            except OSError:
-                pass
+    if name in SIMULATE:
+        r = vlib.tlc("Gen_Semantics", tmp, workers=workers, timeout=2400, json_out=gen,
+                     simulate=SIMULATE[name], depth=60, tool_seed=vlib.seed())
+    else:
+        r = vlib.tlc("Gen_Semantics", tmp, workers=workers, timeout=2400, json_out=gen)
     vlib.tlc_must_pass(r, f"program enumeration {cfg} K={k}")
     nprog = vlib.count_lines(gen)
     with _LOCK:
